@@ -40,7 +40,7 @@ type c17rOut struct {
 
 func c17rApp(p int) string { return fmt.Sprintf("app%d", p) }
 
-func c17rRun(t *testing.T, sc *scenario, nparents int, concurrent bool) c17rOut {
+func c17rRun(t *testing.T, sc *scenario, nparents int, concurrent bool, scaleDown bool) c17rOut {
 	var out c17rOut
 	var omu sync.Mutex
 	w := newWorld()
@@ -176,6 +176,10 @@ func c17rRun(t *testing.T, sc *scenario, nparents int, concurrent bool) c17rOut 
 	for _, o := range w.srv.AllLive() {
 		if o["kind"] == sc.Ctl.ParentKind {
 			o["spec"].(map[string]interface{})["image"] = "v2"
+			if n, ok := o["spec"].(map[string]interface{})["replicas"].(int64); ok && n > 1 && scaleDown {
+				// one child per parent is no longer desired: deletions happen in the concurrent rounds too
+				o["spec"].(map[string]interface{})["replicas"] = n - 1
+			}
 			delete(o["metadata"].(map[string]interface{}), "resourceVersion")
 			w.srv.Seed(o)
 		}
@@ -261,6 +265,12 @@ func TestVerif_C17r(t *testing.T) {
 			sc.Ctl.Name = fmt.Sprintf("race%d", iter%3)
 			sc.Ctl.Customize = true
 			sc.Ctl.ParentNamespaced, sc.Ctl.ParentResource, sc.Ctl.ParentKind = true, "things", "Thing"
+			if iter%3 == 1 {
+				sc.Ctl.SSA = true // server-side apply: the shared apply memo is read and written by every worker
+				if n, ok := sc.Parent["spec"].(J)["replicas"].(int64); ok && n < 2 {
+					sc.Parent["spec"].(J)["replicas"] = int64(2)
+				}
+			}
 			sc.Parent["kind"] = "Thing"
 			sc.Parent["metadata"].(J)["namespace"] = "ns1"
 			for _, c := range sc.Hook.Children {
@@ -268,18 +278,21 @@ func TestVerif_C17r(t *testing.T) {
 			}
 			return sc
 		}
-		seq := c17rRun(t, mk(), nparents, false)
-		conc := c17rRun(t, mk(), nparents, true)
+		scaleDown := iter%2 == 1
+		seq := c17rRun(t, mk(), nparents, false, scaleDown)
+		conc := c17rRun(t, mk(), nparents, true, scaleDown)
 		id := fmt.Sprintf("s%d", iter)
 		def := fmt.Sprintf("mkC17r %s %s %s %s %s", vh.CoqStringList(seq.Store), vh.CoqStringList(conc.Store),
 			vh.CoqStringList(append(seq.Foreign, conc.Foreign...)), vh.CoqStringList(append(seq.CacheMutated, conc.CacheMutated...)),
 			vh.CoqStringList(append(seq.Panics, conc.Panics...)))
 		replay := J{"seed": seed, "iter": iter, "parents": nparents, "serial": seq, "concurrent": conc,
-			"features": []string{fmt.Sprintf("parents-%d", nparents)}}
+			"features": []string{fmt.Sprintf("parents-%d", nparents), fmt.Sprintf("ssa-%v", iter%3 == 1), fmt.Sprintf("scale-down-%v", scaleDown)}}
 		if err := w.Add(id, def, "C17r_check", replay); err != nil {
 			t.Fatal(err)
 		}
 		w.Count(fmt.Sprintf("parents-%d", nparents))
+		w.Count(fmt.Sprintf("ssa-%v", iter%3 == 1))
+		w.Count(fmt.Sprintf("scale-down-%v", scaleDown))
 		w.Count("concurrent-rounds")
 		w.Count("concurrent-rounds")
 		w.Count("concurrent-rounds")
